@@ -320,14 +320,14 @@ def doget_setup(wp):
 
 
 def counter(wp, first):
-    i, m = wp.env['i'].t, wp.env['max_iterations'].t
+    i, m = wp.env[wp.loop_counter or 'i'].t, wp.env['max_iterations'].t
     return f'(and (<= {first} {i}) (<= {i} (imax {m} {first})))'
 
 
 def with_havoc(inv, extra=(), decreases=True):
     inv.havoc = tuple(STATE_KEYS) + tuple(extra)
     if decreases:
-        inv.decreases = lambda wp, env: f'(- {wp.env["max_iterations"].t} {env["i"].t})'
+        inv.decreases = lambda wp, env: f'(- {wp.env["max_iterations"].t} {env[wp.loop_counter or "i"].t})'
     return inv
 
 
